@@ -407,7 +407,13 @@ def correspond(ctx, kind, cont, cstats, leak_expected=None):
             cstats["unencodable"] = cstats.get("unencodable", 0) + 1
             continue
         names = {v: k for k, v in enc.ids.items()}
-        outs = ctx.model.ask_many([f"(117 1 0 {sx})", f"(117 1 1 {sx})", f"(117 2 0 {sx})"])
+        outs = ctx.model.ask_many([f"(117 1 0 {sx})", f"(117 1 1 {sx})", f"(117 2 0 {sx})", f"(117 6 {sx})"])
+        # invariant of the representation (guard of C17_no_uuid_in_sheet_repaired): only has_group cases carry a
+        # group uuid.  It must hold of EVERY encoded flow, malformed and corner streams included.
+        cstats["flow_wf_checked"] = cstats.get("flow_wf_checked", 0) + 1
+        if parse_sexp(outs[3]) != 1:
+            ctx.disagree("flow_wf is false on an encoded flow (the guard of C17_no_uuid_in_sheet_repaired is a restriction after all)",
+                         dict(kind=kind, container=cont), outs[3], "every flow file")
         for nb in (False, True):
             ir = run_cli_mode(fl.to_rows, nb)
             mo = parse_sexp(outs[1 if nb else 0])
